@@ -5,7 +5,8 @@ import json, os, subprocess, sys, time
 from collections import Counter, defaultdict
 ROOT = os.path.dirname(os.path.abspath(__file__))
 secs = float(sys.argv[1]) if len(sys.argv) > 1 else 6
-only = sys.argv[2].split(",") if len(sys.argv) > 2 else None
+only = sys.argv[2].split(",") if len(sys.argv) > 2 and sys.argv[2] != "-" else None
+variants = sys.argv[3].split(",") if len(sys.argv) > 3 else ["sim-default", "sim-tiny"]
 out = subprocess.run([ROOT + "/build/sim-default/simcheck", "--list"], stdout=subprocess.PIPE, text=True).stdout
 props = sorted(set(l.split()[0] for l in out.splitlines() if l.strip()))
 if only:
@@ -13,7 +14,7 @@ if only:
 os.makedirs("/tmp/sweep", exist_ok=True)
 for p in props:
     procs = []
-    for i, v in enumerate(["sim-default", "sim-tiny"] * 3):
+    for i, v in enumerate((variants * 6)[:6]):
         cmd = ["taskset", "-c", str(1 + i), ROOT + "/build/%s/simcheck" % v, "--prop", p, "--seed-base", str(900000000 + i * 1000000),
                "--count", "1000000", "--time", str(secs), "--outdir", "/tmp/sweep"]
         procs.append((v, subprocess.Popen(cmd, stdout=subprocess.PIPE, stderr=subprocess.DEVNULL, text=True)))
